@@ -27,6 +27,16 @@ class NonTermination(BaseException):
 _LOG = []          # (object, returned profile, threshold) for every _run_step(store_states=True)
 _CREATED = []      # election objects in order of first step
 _CAP = [64]
+_VORDER = {}       # PluralityVeto only: id(object) -> voter order after each recorded step
+
+
+def _voter_order(e):
+    """the voters (unit ballots) of a PluralityVeto object in the order in which they will be asked next, as concrete rankings"""
+    out = []
+    for i in e.random_order:
+        b = e.ballot_list[i]
+        out.append([sorted(s) for s in (b.ranking or ()) if len(s)])
+    return out
 _wrapped = False
 
 
@@ -50,11 +60,15 @@ def install_recorder():
                 if store_states:
                     if not any(o is self for o in _CREATED):
                         _CREATED.append(self)
+                        if hasattr(self, "random_order") and hasattr(self, "ballot_list"):
+                            _VORDER[id(self)] = [_voter_order(self)]        # the order the first round starts from
                     if len(self.election_states) > _CAP[0]:
                         raise NonTermination()
                 out = orig(self, profile, prev_state, store_states)
                 if store_states:
                     _LOG.append((self, out, getattr(self, "threshold", -1)))
+                    if hasattr(self, "random_order") and hasattr(self, "ballot_list"):
+                        _VORDER.setdefault(id(self), []).append(_voter_order(self))
                 return out
             wrap.__wrapped__ = orig
             return wrap
@@ -118,6 +132,7 @@ def run_once(cfg, cands, ballots, names=None, cand_order=None, keep_obj=False):
     inv = {v: k for k, v in nm.items()}
     del _LOG[:]
     del _CREATED[:]
+    _VORDER.clear()
     _CAP[0] = 2 * len(cands) + 6      # BoundedRounds allows len(cands) + 2 states; beyond the cap the run is a NonTermination event
     err = None
     e = None
@@ -155,11 +170,17 @@ def run_once(cfg, cands, ballots, names=None, cand_order=None, keep_obj=False):
                 if cfg["rule"] == "TopTwo" and s.round_number == 2 and s.tiebreaks:
                     p = None   # returned by a replay that re-draws the runoff tiebreak: not the profile of this round
                 events.append(state_json(s, p, t if cfg["rule"] in ("STV", "IRV", "SequentialRCV") else -1, inv=inv))
+    vorder0 = []
+    if main is not None and id(main) in _VORDER:
+        orders = [[[sorted(inv[c] for c in pos) for pos in r] for r in o] for o in _VORDER[id(main)]]
+        vorder0 = orders[0]
+        for ev, o in zip(events, orders[1:]):
+            ev["vorder"] = o
     if err == "NonTermination":
         events.append({"ev": "NonTermination"})
     elif err:
         events.append({"ev": "Error", "class": err})
-    hdr = {"cfg": cfg, "cands": sorted(cands), "prof0": _abstract_bag(ballots), "thr": thr0,
+    hdr = {"cfg": cfg, "cands": sorted(cands), "prof0": _abstract_bag(ballots), "thr": thr0, "vorder": vorder0,
            "round0": round0 if round0 is not None else _empty_round(), "has_round0": round0 is not None}
     if keep_obj:
         return hdr, events, e
@@ -176,7 +197,7 @@ def _abstract_bag(ballots):
 
 def _empty_round():
     return {"ev": "Round", "elected": [], "eliminated": [], "remaining": [], "scores": [], "tiebreaks": [], "bag": [],
-            "bagknown": True, "thr": -1, "p": [0, 0]}
+            "bagknown": True, "thr": -1, "p": [0, 0], "vorder": []}
 
 
 def _evkey(ev):
@@ -204,14 +225,13 @@ def record(cfg, cands, ballots, mode="explore", max_paths=400, names=None, cand_
     hdr0 = [None]
 
     def f():
-        marks = []
         hdr, events = run_once(cfg, cands, ballots, names, cand_order)
         hdr0[0] = hdr
         return events
 
     try:
         for events, pr, log in EX.runs(f, max_paths=max_paths):
-            paths.append((events, pr))
+            paths.append((events, pr, hdr0[0]))
     except TooManyPaths:
         return record(cfg, cands, ballots, "real", names=names, cand_order=cand_order, seed=seed)[0], \
             {"paths": len(paths), "explored": False, "too_many": True}
@@ -220,21 +240,24 @@ def record(cfg, cands, ballots, mode="explore", max_paths=400, names=None, cand_
         # fall back to one seeded real run (validated by TLC without probability labels) and say so in the trace info.
         return record(cfg, cands, ballots, "real", names=names, cand_order=cand_order, seed=seed)[0], \
             {"paths": len(paths), "explored": False, "unscripted_randomness": True}
-    # trie of abstract event sequences with exact probabilities
+    # trie of abstract event sequences with exact probabilities; the part of the header that depends on a random draw (the voter
+    # order PluralityVeto shuffles in its constructor) is the first edge of the trie
+    def start(h):
+        return ("hdr:" + json.dumps(h.get("vorder", [])),)
     prefix_p = {}
-    for events, pr in paths:
-        key = ()
+    for events, pr, h in paths:
+        key = start(h)
         prefix_p[key] = prefix_p.get(key, 0) + pr
         for ev in events:
             key = key + (_evkey(ev),)
             prefix_p[key] = prefix_p.get(key, 0) + pr
     traces, seen = [], set()
-    for events, pr in paths:
-        full = tuple(_evkey(ev) for ev in events)
+    for events, pr, h in paths:
+        full = start(h) + tuple(_evkey(ev) for ev in events)
         if full in seen:
             continue
         seen.add(full)
-        evs, key = [], ()
+        evs, key = [], start(h)
         for ev in events:
             k2 = key + (_evkey(ev),)
             e2 = dict(ev)
@@ -244,11 +267,11 @@ def record(cfg, cands, ballots, mode="explore", max_paths=400, names=None, cand_
                     e2["p"] = [0, 0]       # label outside TLC's exact range: not compared
             evs.append(e2)
             key = k2
-        t = dict(hdr0[0])
+        t = dict(h)
         t["events"] = evs
         t["_path_p"] = rat(prefix_p[full])
         traces.append(t)
-    return traces, {"paths": len(paths), "explored": True, "total_p": rat(sum(p for _, p in paths))}
+    return traces, {"paths": len(paths), "explored": True, "total_p": rat(sum(x[1] for x in paths))}
 
 
 # ----------------------------------------------------------------------------- fast profile construction
